@@ -42,6 +42,8 @@ def base_form(rng, i):
     if i % 4 == 1:
         # numbers that need all the digits a double can carry (the spreadsheets store them as numbers; read back they spell the same digits)
         f.survey.append(Row("q", "decimal", "longnum", {"label": "n", "default": rng.choice(["0.3333333333333333", "12.34567890123456", "0.1", "2.718281828459045", "123456.789012345"])}))
+        f.survey.append(Row("q", "decimal", "smallnum", {"label": "s", "default": rng.choice(["0.00001", "0.0000001", "0.000025", "0.00012345678901234", "0.000000003"]),
+                                                       "constraint": ". > " + rng.choice(["0.00001", "0.0000004"])}))
         f.survey.append(Row("q", "integer", "longint", {"label": "i", "default": rng.choice(["1234567890123456", "2024010112", "9007199254740992", "123456789012"])}))
     if i % 5 == 0:
         f.external_choices = [{"list_name": "ext", "name": f"e{k}", "label": f"E {k}", "grp": f"g{k % 2}"} for k in range(3)]
@@ -75,7 +77,7 @@ def typify(sheets, rng):
                         rr[ci] = int(c)
                     elif x < 0.7:
                         rr[ci] = float(c)
-                elif c.replace(".", "", 1).isdigit() and "." in c and x < 0.6 and repr(float(c)) == c:
+                elif c.replace(".", "", 1).isdigit() and "." in c and x < 0.6 and render.canon_text(float(c)) == c:
                     rr[ci] = float(c)
                 elif c in ("yes", "true()") and hdrs[ci] in ("required", "read_only") and x < 0.5:
                     rr[ci] = True
